@@ -215,7 +215,9 @@ pub fn run_case(ctx: &mut CaseCtx) -> CaseResult {
             }
             last_rot_sec = sec;
         }
-        if sync_cleanup && !matches!(op, HOp::Advance(_)) {
+        // judged (which needs a flush) only now and then: otherwise no rotation would ever
+        // happen with unflushed bytes in the buffer
+        if sync_cleanup && !matches!(op, HOp::Advance(_)) && rng.chance(1, 4) {
             hist.driver.flush();
             comparisons += 1;
             if !judge(&hist, &mut res, &format!("after op {i} {op:?}"), same_second_rot) {
